@@ -1,5 +1,6 @@
 /* Harnesses of the C41 spline unit. */
-#if !defined(SPL_COVER) && !defined(SPL_COVER_CUT)
+#if defined(SPL_BOUNDED)
+#elif !defined(SPL_COVER) && !defined(SPL_COVER_CUT)
 void h_search(void) { int *n; SimTK_Real *x; SimTK_Real *t; int *l; search_(n, x, t, l); }
 #else
 /* reachability guards (plain harness, knot array of at most 6 entries, loops unwound):
@@ -26,6 +27,54 @@ void h_search_cover(void)
 #if defined(SPL_COVER)
   __CPROVER_cover(g_cov_iters == 0 && 1 <= l && l < n);
   __CPROVER_cover(g_cov_iters >= 3);
+#endif
+}
+#endif
+
+#if defined(SPL_BOUNDED)
+/* BOUNDED stand-in: index / loop skeleton of SimTK_splder_ (m <= 3, 2m <= n <= 8, ider <= 2m, coffset <= 2), search_ used BY CONTRACT (executable stub of the contract proved in spline.search).
+   x, c, q are allocated with EXACTLY the sizes the interface promises (n knots, coffset*(n-1)+1 coefficients slots, 2m work entries),
+   so that an index off by one is a bounds failure.
+   Specification of the derivative sweeps, written from the B-spline derivative recurrence and not from the loop bounds of the code:
+   in sweep i (1 <= i <= ider < 2m) the entry of knot index j inside the window  L-2m+i < j <= L  is replaced by a divided difference over the
+   knot pair (X(j), X(j+2m-i)) exactly once if both knots exist (1 <= j and j+2m-i <= n), and never otherwise; entry j-1 is still the previous
+   sweep's value at that moment; the number of sweeps is ider; every divisor X(j+2m-i) - X(j) is positive. */
+#ifndef SPL_M
+#define SPL_M 3
+#endif
+#ifndef SPL_N
+#define SPL_N (2 * SPL_M + 2)
+#endif
+#define SPL_NB SPL_N
+void h_splder_bounded(void)
+{
+  int m = nondet_int(), n = nondet_int(), ider = nondet_int(), coffset = nondet_int(), L = nondet_int();
+  __CPROVER_assume(m == SPL_M && n == SPL_N && 0 <= ider && ider <= 2 * m && 1 <= coffset && coffset <= 2);
+  SimTK_Real x[SPL_N];
+  SimTK_Real *c = malloc(sizeof(SimTK_Real) * (coffset * (n - 1) + 1));
+  SimTK_Real q[2 * SPL_M];
+  __CPROVER_assume(c != NULL);     /* CBMC 6: malloc may fail by default */
+  for (int k = 0; k < SPL_NB; ++k) if (k < n) { x[k] = nondet_double(); __CPROVER_assume(NOTNAN(x[k])); if (k > 0) __CPROVER_assume(x[k - 1] < x[k]); }
+  SimTK_Real t = nondet_double(); __CPROVER_assume(NOTNAN(t));
+  g_i = nondet_int(); g_j = nondet_int(); __CPROVER_assume(-4 <= g_i && g_i <= 4 * SPL_M && -4 * SPL_M <= g_j && g_j <= 2 * SPL_N);
+  g_sweeps = 0; g_hits = 0; g_hi_knot = 0; g_low_seen = 0; g_low_first = 0; g_den_bad = 0;
+  int m0 = m, n0 = n, ider0 = ider; SimTK_Real t0 = t;
+  SimTK_Real r = SimTK_splder_(&ider, &m, &n, &t, x, c, &L, q, coffset);
+  int m2 = 2 * m0;
+  int expected = (ider0 < m2 && 1 <= g_i && g_i <= ider0 && L - m2 + g_i < g_j && g_j <= L && 1 <= g_j && g_j + (m2 - g_i) <= n0) ? 1 : 0;
+#if !defined(SPL_BOUNDED_COVER)
+  __CPROVER_assert(m == m0 && n == n0 && ider == ider0 && t == t0, "splder frame: *m, *n, *ider, *t unchanged");
+  __CPROVER_assert(ider0 < m2 || (r == 0.0 && g_sweeps == 0), "splder: derivative order >= 2m: result exactly 0, no sweep");
+  __CPROVER_assert(ider0 >= m2 || g_sweeps == ider0, "splder: the number of differencing sweeps equals the derivative order ider");
+  __CPROVER_assert(g_hits == expected, "splder: in sweep i the entry of knot j is differenced exactly once iff L-2m+i < j <= L and both knots X(j), X(j+2m-i) exist");
+  __CPROVER_assert(g_hits == 0 || g_hi_knot == g_j + (m2 - g_i), "splder: sweep i differences entry j over the knot pair (X(j), X(j+2m-i))");
+  __CPROVER_assert(!g_low_first && !g_den_bad, "splder: entries are differenced in descending order (q[jm-1] still holds the previous sweep) and every divisor is positive");
+#else
+  __CPROVER_cover(g_hits == 1 && L == n0 - 1);      /* last interval (beyond the last knot, L == n, nothing is differenced) */
+  __CPROVER_cover(g_hits == 1 && 1 <= L && L < m2);
+  __CPROVER_cover(g_hits == 1 && m2 <= L && L < n0 && g_i == ider0 && ider0 == m2 - 1);
+  __CPROVER_cover(ider0 == 0 && L == 0);
+  __CPROVER_cover(expected == 0 && ider0 >= 2 && g_i == 2 && g_j == L && L == n0);
 #endif
 }
 #endif
